@@ -868,7 +868,7 @@ class Select(SQLExpression):
         start, end = self.ops['start'], self.ops['end']
         if self.ops['limit'] is not NoDefault:
             end = start + self.ops['limit']
-        if start or end:
+        if start or end is not None:
             from .dbconnection import dbConnectionForScheme
             select = dbConnectionForScheme(db)._queryAddLimitOffset(select,
                                                                     start, end)
